@@ -26,16 +26,20 @@ INIT = {"dict": {"k": 0, "c": {"k": 0, "x": 0}, "l": [0, 1, 2]},
 DICT_OPS = {
     "setitem_diff": lambda t: ("setitem", (("a", "b", "d")[t], t)),
     "setitem_same": lambda t: ("setitem", ("s", t)),
+    "setitem_nested": lambda t: ("setitem", (("a", "b", "d")[t], {"n": [t]})),
     "delitem": lambda t: ("delitem", ("k",)),
     "pop": lambda t: ("pop", ("k",)),
     "popitem": lambda t: ("popitem", ()),
     "setdefault": lambda t: ("setdefault", ("n", [t])),
+    "setdefault_same": lambda t: ("setdefault", ("s", t + 10)),
     "update": lambda t: ("update", ({"u%d" % t: t}, {})),
     "clear": lambda t: ("clear", ()),
     "reset": lambda t: ("reset", ({"r%d" % t: t},)),
 }
 LIST_OPS = {
     "append": lambda t: ("append", (t + 7,)),
+    "append_nested": lambda t: ("append", ({"n": [t + 7]},)),
+    "insert_nested": lambda t: ("insert", (0, [t + 7, {"m": t}])),
     "extend": lambda t: ("extend", ([t + 7, t + 7],)),
     "insert": lambda t: ("insert", (0, t + 7)),
     "setitem": lambda t: ("setitem", (0, t + 7)),
@@ -47,8 +51,8 @@ LIST_OPS = {
     "clear": lambda t: ("clear", ()),
     "reset": lambda t: ("reset", ([t + 7],)),
 }
-CORE6 = {"dict": ("setitem_diff", "delitem", "setdefault", "update", "clear", "reset"),
-         "list": ("append", "insert", "delitem", "pop", "reverse", "reset")}
+CORE6 = {"dict": ("setitem_diff", "setitem_same", "delitem", "setdefault_same", "update", "clear", "reset"),
+         "list": ("append", "append_nested", "insert", "delitem", "pop", "reverse", "reset")}
 CORE3 = {"dict": ("setitem_diff", "update", "pop"), "list": ("append", "insert", "delitem")}
 OPS = {"dict": DICT_OPS, "list": LIST_OPS}
 
